@@ -17,7 +17,7 @@ RULE = ("(1) for every built-in command of the CSV library set a valid base mode
         "wrong-fuzziness results, bad paths, unknown command, duplicate result); (2) the same faults at random positions of random "
         "models with sinks; (3) every producer x consumer pairing of built-in data commands; (4) unfaulted models must be accepted; "
         "distinct by (fault kind, command, parameter, variant) / (producer, consumer)")
-REQUIRED_COUNTERS = ["rejections_checked", "side_effect_free_rejections", "acceptances_checked", "pairings_checked", "exec_events_seen_in_valid_runs", "netcdf_model_cases"]
+REQUIRED_COUNTERS = ["rejections_checked", "side_effect_free_rejections", "acceptances_checked", "pairings_checked", "exec_events_seen_in_valid_runs", "netcdf_model_cases", "api_built_models"]
 ASSUMPTIONS = ["a list or tuple given to a String/Path parameter is don't-care (string cleaning stringifies by design)",
                "value-dependent run-time errors (InvalidThresholds, DuplicateRawValues, ...) are not acceptance errors",
                "the acceptance rule is restated from the declarations (inputs/required/output/is_fuzzy), not from running clean()"]
@@ -124,6 +124,9 @@ def cases(ctx):
         m = models.gen_model(rng, n_ops=rng.randint(2, 6), sinks=rng.random() < 0.5)
         if any(c["cmd"] in arr.FUZZY_OUTPUT or c["cmd"] == "CvtFromFuzzy" for c in m["commands"]):
             yield {"kind": "restricted", "model": m, "rseed": rng.randrange(10 ** 9)}
+    # duplicate result names in files written (partly) in EEMS 2.0 syntax
+    for i in range(ctx.n(12, 300)):
+        yield {"kind": "v2dup", "variant": i % 4, "rseed": rng.randrange(10 ** 9)}
     # (3) pairings
     data_cmds = list(cmdgen.ALL)
     k = 0
@@ -138,14 +141,17 @@ def cases(ctx):
                "rseed": rng.randrange(10 ** 9)}
 
 
-def _run_monitored(ctx, text, d, working_dir="use-d", libs=arr.CSV_LIBS):
+def _run_monitored(ctx, text, d, working_dir="use-d", libs=arr.CSV_LIBS, api_model=None):
     """Load + run with the recorder on. Returns (error or None, program or None, log, fs changes)."""
     from mpilot.program import Program
     before = trace.snapshot_dir(d)
     log = trace.start(watch_dirs=[d])
     prog, err = None, None
     try:
-        prog = Program.from_source(text, libraries=libs, working_dir=d if working_dir == "use-d" else working_dir)
+        if api_model is not None:
+            prog = models.build_api(api_model, d, libs, write=False)    # the table is already there: only mpilot's writes count
+        else:
+            prog = Program.from_source(text, libraries=libs, working_dir=d if working_dir == "use-d" else working_dir)
         trace.attach(prog)
         prog.run()
     except Exception as e:
@@ -163,10 +169,38 @@ def _side_effects(log, changed, prog):
     return execs, writes, changed, finished
 
 
+def run_v2dup(ctx, case):
+    """The same result name twice in a file that goes through the EEMS 2.0 conversion: DuplicateResult, nothing executed."""
+    d = ctx.scratch()
+    with open(os.path.join(d, "in.csv"), "w") as f:
+        f.write("X0,X1\n1,2\n3,4\n")
+    texts = [
+        'READ(InFileName = "in.csv", InFieldName = X0)\nREAD(InFileName = "in.csv", InFieldName = X0)\nOut = EEMSWrite(OutFileName = "o.csv", OutFieldNames = [X0])',
+        'READ(InFileName = "in.csv", InFieldName = X0, NewFieldName = A)\nREAD(InFileName = "in.csv", InFieldName = X1, NewFieldName = A)\nCOPYFIELD(InFieldName = A, NewFieldName = B, OutFileName = "x.csv")',
+        'A = EEMSRead(InFileName = "in.csv", InFieldName = "X0")\nREAD(InFileName = "in.csv", InFieldName = X1, NewFieldName = A)\nS = Sum(InFieldNames = [A])',
+        'READ(InFileName = "in.csv", InFieldName = X0)\nX0 = Copy(InFieldName = X0)',
+    ]
+    text = texts[case["variant"]]
+    err, prog, log, changed = _run_monitored(ctx, text, d)
+    ctx.count("rejections_checked")
+    ctx.feature(("v2dup", case["variant"]))
+    execs, writes, changed, finished = _side_effects(log, changed, prog)
+    if err is None:
+        ctx.fail("duplicate-result-in-eems2-file:accepted", {"text": text, "executed": execs})
+    elif type(err).__name__ != "DuplicateResult":
+        ctx.fail("duplicate-result-in-eems2-file:rejected-with-%s" % type(err).__name__, {"text": text, "error": str(err)[:200]})
+    if execs or writes or changed or finished:
+        ctx.fail("duplicate-result-in-eems2-file:side-effect-before-rejection", {"executed": execs[:5], "fs": writes[:4]})
+    else:
+        ctx.count("side_effect_free_rejections")
+
+
 def run_case(ctx, case):
     kind = case["kind"]
     if kind == "pair":
         return run_pair(ctx, case)
+    if kind == "v2dup":
+        return run_v2dup(ctx, case)
     d = ctx.scratch()
     model = case["model"]
     if case.get("shuffle"):
@@ -179,7 +213,10 @@ def run_case(ctx, case):
     if kind == "restricted":
         return run_restricted(ctx, case, model, d)
     text, _ = models.to_text(model)
-    err, prog, log, changed = _run_monitored(ctx, text, d, libs=models.model_libs(model))
+    api = kind == "fault" and case.get("rseed", 0) % 4 == 1 and case["expect"]["fault"] not in ("unknown-command",)
+    if api:
+        ctx.count("api_built_models")
+    err, prog, log, changed = _run_monitored(ctx, text, d, libs=models.model_libs(model), api_model=model if api else None)
     if model.get("libs") == "nc":
         ctx.count("netcdf_model_cases")
     if kind == "valid":
